@@ -32,6 +32,9 @@ HOSTS = [
     ("harness.C18_distances", ("sparse_", "dense_union", "set_helpers", "sparse_vs_dense", "basic"), {}),
     ("harness.C17_infoweight", ("kl_exact",), {}),
     ("harness.C06_counts", ("ngram", "skipgram"), {}),      # EdgeListVectorizer has no compiled kernel
+    ("harness.C07_plan", ("transport_plan", "chunked_pairwise_distance", "cost_orientation"), {}),
+    ("harness.C08_ot", ("kernel_chunks", "measure_invariance", "truncation"), {}),
+    ("harness.cls_rowwise", ("rowwise[bpe",), {}),
 ]
 # quick tier: at most this many cases per host (the first ones of its own quick grid); thorough: all
 QUICK_CAP = {"harness.C17_infoweight": 3, "harness.C11_em": 6, "harness.cls_cooc": 5, "harness.C06_counts": 12,
